@@ -373,6 +373,15 @@ func (s *Store[H]) DeleteRange(ctx context.Context, from, to uint64) error {
 		log.Info("header/store: wiped store")
 		return nil
 	}
+	if wipe && actualTo >= to {
+		// The deletion failed inside its last header, and that header counts as deleted (see above):
+		// nothing is left of the store, so there is no header the pointers could be moved to.
+		// Drop them as a successful wipe does, and report the failure.
+		if err := s.wipe(ctx); err != nil {
+			deleteErr = errors.Join(deleteErr, fmt.Errorf("header/store: wipe: %w", err))
+		}
+		return deleteErr
+	}
 
 	// Always update pointers to reflect actual progress, even on partial delete.
 	// This ensures store consistency and allows retries to continue from where we left off.
